@@ -32,6 +32,7 @@ def main() -> int:
     if "--tier" in args:
         tier = args[args.index("--tier") + 1]
     meta = json.load(open(os.path.join(cand, "meta.json")))
+    recheck = os.path.abspath(cand) == os.path.abspath(os.path.join(VERIF, "seeded", sid))
     prop = meta.get("property", sid.split("_")[0])[:3].upper() if meta.get("property") else sid[:3]
     prop = sid.split("_")[0]
     checks = [prop]
@@ -44,14 +45,20 @@ def main() -> int:
     demo = os.path.abspath(os.path.join(cand, "demo.py"))
     report = {"seed": sid, "property": prop, "summary": meta.get("summary"), "needs": meta.get(
         "needs"), "files": meta.get("files"), "ran": []}
+    if recheck:
+        report.update({k: meta.get(k) for k in ("summary", "needs", "files", "confirmation",
+            "confirmed", "ran", "initial_detected_by", "note") if k in meta})
+        report["property"] = meta["property"]
     # 1. confirmation in a scratch worktree
     wt = f"/tmp/wt/confirm_{sid}"
     sh(f"git -C /repo worktree remove --force {wt}")
-    rc, out = sh(f"git -C /repo worktree add --detach {wt} HEAD -q")
+    rc, out = (0, "") if recheck else sh(f"git -C /repo worktree add --detach {wt} HEAD -q")
     if rc:
         print(out)
         return 2
     try:
+        if recheck:
+            raise StopIteration
         env = dict(os.environ, PYTHONPATH=wt, PYTHONDONTWRITEBYTECODE="1")
         rc0, o0 = sh([PY, demo], cwd=wt, env=env, timeout=900)
         rc, out = sh(f"git apply {patch}", cwd=wt)
@@ -69,6 +76,8 @@ def main() -> int:
         report["ran"].append(f"scratch worktree {wt}: demo.py before/after patch; pytest -n 8")
         ok = rc0 == 0 and rc1 != 0 and rcs == 0
         report["confirmed"] = ok
+    except StopIteration:
+        pass
     finally:
         sh(f"git -C /repo worktree remove --force {wt}")
     if not report["confirmed"]:
@@ -108,17 +117,21 @@ def main() -> int:
     # 3. keep
     dest = os.path.join(VERIF, "seeded", sid)
     os.makedirs(dest, exist_ok=True)
-    shutil.copy(patch, os.path.join(dest, "patch.diff"))
-    shutil.copy(demo, os.path.join(dest, "demo.py"))
+    if not recheck:
+        shutil.copy(patch, os.path.join(dest, "patch.diff"))
+        shutil.copy(demo, os.path.join(dest, "demo.py"))
     old = {}
     mp = os.path.join(dest, "meta.json")
     if os.path.exists(mp):
         old = json.load(open(mp))
+        if "initial_detected_by" not in report:
+            report["initial_detected_by"] = old.get("initial_detected_by", old.get("detected_by", []))
         prev = old.get("checks", {})
         prev.update(results)
         report["checks"] = prev
         report["detected_by"] = sorted(c for c, r in prev.items() if r["exit"] == 1 and
             r["violations"])
+    report.setdefault("initial_detected_by", report["detected_by"])
     json.dump(report, open(mp, "w"), indent=1)
     print(f"[seed {sid}] confirmed={report['confirmed']} detected_by={report['detected_by']}")
     return 0
